@@ -880,6 +880,28 @@ func (env *SpecEnv) evalCall(n *Node) Val {
 	case "pow2":
 		k := env.eval(args[0])
 		return mathInt(app(ex.pow2UF(), k.L[0]))
+	case "visited":
+		// visited(k): key k has already been produced by the map range loop this clause belongs to
+		if env.lp == nil || env.fr == nil {
+			sfail("visited() is only meaningful in a clause of a range-over-map loop")
+		}
+		var rng *ssa.Range
+		for _, ins := range env.lp.header.Instrs {
+			if nx, ok := ins.(*ssa.Next); ok {
+				if r, ok := nx.Iter.(*ssa.Range); ok {
+					rng = r
+				}
+			}
+		}
+		if rng == nil {
+			sfail("visited(): the loop is not a range over a map")
+		}
+		cell, ok := env.cur.cells[cellKey{env.fr.id, ex.eng.hiddenAlloc(rng)}]
+		if !ok {
+			sfail("visited(): iterator state not available here")
+		}
+		k := env.eval(args[0])
+		return mathBool(mkSelect(cell.L[0], k.L[0]))
 	case "splitN":
 		ex.splitFuns()
 		return mathInt(app("split_n", env.eval(args[0]).L[0], env.eval(args[1]).L[0]))
